@@ -95,6 +95,10 @@ fn call(f: &str, a: &[Value]) -> Value {
             Ok(p) => json!({"variant":"Ok","payload":[p]}),
             Err(_) => json!({"variant":"Err","payload":[null]}),
         },
+        "uri_to_path" => match c2pa::verif_hooks::io_utils::uri_to_path(s(&a[0]), arg_opt_str(&a[1]).as_deref()) {
+            Ok(p) => json!({"variant":"Ok","payload":[p.to_string_lossy()]}),
+            Err(_) => json!({"variant":"Err","payload":[null]}),
+        },
         "normalize_host" => json!(rh::normalize_host(s(&a[0]))),
         "looks_like_obfuscated_ip" => json!(rh::looks_like_obfuscated_ip(s(&a[0]))),
         // host_is_non_global on a URI string; {"uri_error": ..} when http::Uri rejects the text
